@@ -105,6 +105,19 @@ def fixed_cases(tier):
                     feats.append({"f": g, "params": ps})
                 out.append({"spec": spec, "cfg": {"feats": feats, "groups": [len(feats)], "pos": ["pre"]}, "enum_rank": 3})
             k += 1
+    # visibility matrix: every enum visibility x every function-like feature alone x every vis parameter
+    fl = E.FN_FEATURES if tier == "thorough" else ["into", "MIN", "next", "iter", "names", "range", "as_str", "try_from"]
+    for evis, erank in ENUM_VIS:
+        for f in fl:
+            for pv in ("", "pub(crate)", "pub"):
+                if f == "iter" and PARAM_RANK[pv] > erank:
+                    continue
+                spec = {"repr": "u8", "vis": evis, "ident": "E", "enum_attrs": [],
+                        "variants": [{"ident": "V%d" % i, "disc": str(v)} for i, v in enumerate([0, 1, 2, 5])]}
+                feats = [{"f": f, "params": [["vis", pv]]}]
+                if f == "range":
+                    feats.append({"f": "iter", "params": []})
+                out.append({"spec": spec, "cfg": {"feats": feats, "groups": [len(feats)], "pos": ["pre"]}, "enum_rank": erank})
     return out
 
 
